@@ -92,6 +92,11 @@ def cases(tier, seed):
             out.append({"kind": "run", "cls": solver + ":wide_block", "solver": solver, "idx": idx, "seed": seed, "maxd": maxd, "nseeds": 2, "dims": list(dims),
                         "wide_block": True})
             idx += 1
+    for dims in ([(46, 40), (48, 48)] if tier == "quick" else [(46, 40), (48, 48), (40, 36), (60, 30), (56, 48)]):
+        for k in range(2):
+            out.append({"kind": "run", "cls": "cgne:long_recurrence", "solver": "cgne", "idx": idx, "seed": seed, "maxd": maxd, "nseeds": 1, "dims": list(dims),
+                        "kap": 1e3, "cgne_long": True})
+            idx += 1
     for st_ in ("herm_pd", "nearly_herm_pd", "nearly_herm_pd", "diag", "upper_tri", "unitary_scaled", "real_only", "zero_row_tall", "column_scaled", "row_scaled"):
         for solver in ("rsp_column_qr", "rsp_column_spd", "rsp_row", "rsp_compute", "hybrid", "cgne"):
             if tier == "quick" and st_ in ("column_scaled", "row_scaled") and solver in ("rsp_column_spd", "rsp_row", "rsp_compute"):
@@ -160,6 +165,8 @@ def _matrix(rng, spec, orientation):
         s = embed.svals(A)
         return A, embed.pinv(A), s, float(s[0] / s[-1])
     kap = float(rng.choice([1.0, 10.0, 1e2, 1e3], p=[0.3, 0.4, 0.2, 0.1]))
+    if spec.get("kap"):
+        kap = float(spec["kap"])
     if spec.get("wide_block"):
         kap = float(rng.choice([3.0, 5.0, 10.0]))          # mild conditioning: the inner solves then pass slowly through the 1e-3 .. 1e-8 range
     scale = float(rng.choice([1e-2, 1.0, 1.0, 1e2]))
@@ -242,6 +249,12 @@ def run_case(spec, ctx, R):
             tol = cfg["tol"]
     else:
         cfg = {"tol": tol, "max_iter": int(rng.choice([1, 2, 3, 4, 5, 6, 8, 10, 12, 16, 24, 500, 500, 500, 500])), "preconditioner_rank": int(rng.choice([0, 0, max(1, N // 2)]))}
+    if spec.get("cgne_long"):
+        # the deterministic solver at the edge of its domain: 36 .. 48 columns, cond 1e3 (log-spaced), tolerances 1e-6 / 1e-8, default budget 500
+        # - it needs 150 .. 300 iterations, i.e. long recurrences (any periodic restart or loss of conjugacy shows as a missed budget)
+        tol = [1e-6, 1e-8][spec["idx"] % 2]
+        cfg = {"tol": tol, "max_iter": 500, "preconditioner_rank": 0}
+        ctx.hit("config:cgne_long_recurrence")
     if spec.get("wide_block"):
         # strictly tall input, block of 12 .. 16 columns, the SPD micro-solver, tight tolerance, run to convergence: the inner conjugate-gradient
         # solves then do real work (small blocks fall back to the direct inverse), and what they leave in the left null space of A is visible
@@ -357,6 +370,10 @@ def run_case(spec, ctx, R):
             if conv:
                 ctx.check("flag_sound_residual", true, tol * (1 + 1e-6) + C * EPS * kap * kap * (it + 1), site=site, detail=det)
                 ctx.check("flag_sound_pinv", refq.fro(X - Ap), (tol * (1 + 1e-6) * np.sqrt(n) / smin) + floor * refq.fro(Ap), site=site, detail=det)
+            if spec.get("cgne_long"):
+                # the budget clause itself: the default budget suffices on these inputs (150 .. 300 iterations on the unchanged tree)
+                ctx.check("cgne_accurate", bool(conv and true <= tol * (1 + 1e-6) + C * EPS * kap * (it + 1)), site=site + ":converges_within_default_budget",
+                          detail={**det, "iterations": it})
             if cfg["max_iter"] >= 500 and cfg["preconditioner_rank"] == 0:
                 # deterministic solver: accurate within its budget on every input with cond <= 1e3
                 ctx.check("cgne_accurate", true, tol * (1 + 1e-6) + C * EPS * kap * kap * (it + 1), site=site, detail=det)
